@@ -449,6 +449,35 @@ func c09Faults() []c09Fault {
 		{Class: "valid", Variant: "unexported-and-alias-declarations-present", Apply: func(b *c09Base, _ string, _ *simrt.Plan) {
 			b.tpkg().Files[0].Extra += "\ntype generic[T any] interface{ Get() T }\n\ntype intGetter = generic[int]\n\ntype lower interface{ m() }\n\ntype NotIface func(int) string\n\nvar _ intGetter\nvar _ lower\n"
 		}},
+		{Class: "valid", Variant: "generic-interfaces-with-assorted-constraints", Apply: func(b *c09Base, _ string, _ *simrt.Plan) {
+			q := b.tpkg()
+			q.Files = append(q.Files, world.SrcFile{Name: "generic.go", Extra: `import "time"
+
+type Celsius float64
+
+type Gauge[T Celsius] interface{ Read() T }
+
+type Dur[D interface {
+	time.Duration
+	String() string
+}] interface{ Wait(d D) error }
+
+type Num[T ~int | ~int64] interface{ Add(a, b T) T }
+
+type Str[T interface {
+	~string
+	Len() int
+}] interface{ Get() T }
+
+type Pair[K comparable, V any] interface{ Put(k K, v V) (V, bool) }
+`})
+			ifs := b.proj.Config.Sub("packages").Sub(b.tpath()).Sub("interfaces")
+			out := c09OutFile(q.Dir)
+			for _, n := range []string{"Gauge", "Dur", "Num", "Str", "Pair"} {
+				ifs.Set(n, world.NewY())
+				b.expect[out] = append(b.expect[out], "Mock"+n)
+			}
+		}},
 		{Class: "valid", Variant: "gomod-module-tab", Apply: func(b *c09Base, _ string, _ *simrt.Plan) {
 			b.proj.GoModText = "module\t" + c09Mod + "\n" + world.GoModTail
 		}},
